@@ -138,7 +138,7 @@ class State(object):
 
 
 class PathResult(object):
-    __slots__ = ("outcome", "store", "trace", "pc", "sites", "ret", "detail", "notes", "facts", "nfacts")
+    __slots__ = ("outcome", "store", "trace", "pc", "sites", "ret", "detail", "notes", "facts", "nfacts", "stack")
 
     def __repr__(self):
         return "<Path %s %d effects>" % (self.outcome, len(self.trace))
@@ -1216,6 +1216,7 @@ class Walker(object):
         r.notes = state.notes
         r.facts = state.facts
         r.nfacts = state.nfacts
+        r.stack = [f.fn.path for f in state.frames]
         return r
 
     def run_path(self, st, base_depth, work):
